@@ -40,8 +40,30 @@ def emptiness(it, o, path):
     return v[1] if v[0] == "b" else None
 
 
+def error_ctors(chk, w):
+    """the parsers (and the trainer, the readers) report bad input through the constructors of VaporettoError; an error path is
+    only total if building the error value cannot itself fail.  The constructors must be straight-line code that converts
+    and stores its arguments: no loop, no call other than conversions - an error message that is post-processed with
+    input-dependent string surgery can panic on exactly the inputs that are being rejected."""
+    n = 0
+    for k, bs in sorted(w.bodies.items()):
+        if not k.startswith("vaporetto::errors::VaporettoError::") or "#" in k or "{closure" in k:
+            continue
+        b = bs[0]
+        cf = cfgmod.cfg_of(b)
+        callees = sorted({cfgmod.callee(t) or "?" for _, t in cfgmod.calls(b)})
+        extra = [c for c in callees if not (c.endswith("Into::into") or c.endswith("From::from") or "Into<" in c or "From<" in c
+                                            or c.endswith("ToString::to_string") or c.endswith("String::from") or c.endswith("::to_owned") or c.endswith("::to_string"))]
+        n += 1
+        chk.ob("R05.4", "error-ctor:%s:straight-line" % k.split("::")[-1], not cf.natural_loops() and not extra,
+               "%s contains %d loop(s) and calls %s: building an error value must not compute on the rejected input (it can panic where an Err was promised)"
+               % (k, len(cf.natural_loops()), extra), site=C.site(b), sample={"ctor": k, "calls": callees})
+    chk.floor("R05.4", "error constructors", n, 2, other=2)
+
+
 def run(chk, w):
     chk.rule("R05.4", "no unwrap-on-None / explicit panic reachable in the parse loops; a successful parse leaves at least one character")
+    error_ctors(chk, w)
     nonempty_ok = {}
     for upd in ("update_raw", "update_tokenized", "update_partial_annotation"):
         parser = C.find_parser(w, C.S + "::" + upd)
